@@ -240,6 +240,17 @@ func addShape(t *rapid.T, g *G, o Opts) {
 			{Name: hn("s"), Prods: []Prod{P(tk(1), ruleTerm(hn("c")), tk(2))}},
 			{Name: hn("c"), Prods: []Prod{P(body...), P()}},
 		}
+		if rapid.Bool().Draw(t, "afterNT") {
+			// the nullable left-recursive rule directly after a nonterminal: the lookahead for
+			// reducing that nonterminal comes from FIRST(c ...)
+			rules[0].Prods[0] = P(ruleTerm(hn("h")), ruleTerm(hn("c")), tk(2))
+			rules = append(rules, Rule{Name: hn("h"), Prods: []Prod{P(tk(1))}})
+			if rapid.Bool().Draw(t, "item") {
+				// elements are a rule of their own
+				rules[1].Prods[0] = P(ruleTerm(hn("c")), ruleTerm(hn("i")))
+				rules = append(rules, Rule{Name: hn("i"), Prods: []Prod{P(tk(0), tk(3))}})
+			}
+		}
 	case 2: // same sub-language in two contexts with different followers (LALR merges lookaheads)
 		entry = ruleTerm(hn("s"))
 		rules = []Rule{
